@@ -1194,12 +1194,20 @@ func (d *indexData) newMatchTree(q query.Q, opt matchTreeOpt) (matchTree, error)
 			}, nil
 		}
 
+		// subMT only selects candidate documents; each symbol is matched
+		// against the whole expression. For a regexp, subMT may hold no
+		// matcher for it (the regexp was distilled into substring matchers)
+		// or further ones that belong to its trigram pre-filter.
+		exprRegexp, _ := s.Expr.(*query.Regexp)
 		var regexpMT *regexpMatchTree
 		visitMatchTree(subMT, func(mt matchTree) {
-			if t, ok := mt.(*regexpMatchTree); ok {
+			if t, ok := mt.(*regexpMatchTree); ok && (exprRegexp == nil || t.origRegexp == exprRegexp.Regexp) {
 				regexpMT = t
 			}
 		})
+		if regexpMT == nil && exprRegexp != nil {
+			regexpMT = newRegexpMatchTree(exprRegexp)
+		}
 		if regexpMT == nil {
 			return nil, fmt.Errorf("found %T inside query.Symbol", subMT)
 		}
